@@ -8,4 +8,4 @@ for f in sys.argv[1:]:
         if k in("models","ops"): continue
         print("  ",k,json.dumps(v))
     for i,m in enumerate(t.get("models",[])): print("  model",i,json.dumps(m))
-    for i,o in enumerate(t["ops"]): print("  op",i,json.dumps(o))
+    for i,o in enumerate(t.get("ops",[])): print("  op",i,json.dumps(o))
